@@ -57,6 +57,10 @@ def rangeG (pm : List Param) (s : Frame) : Stmt → List Int → Bool
   | .cellCopy r c r2 c2, l => exR pm s l r && exR pm s l c && exR pm s l r2 && exR pm s l c2
   | .cellZero r c, l => exR pm s l r && exR pm s l c
   | .touchRow r, l => exR pm s l r
+  | .setWrapped r c, l => exR pm s l r && exR pm s l c
+  | .putGlyph r c w, l => exR pm s l r && exR pm s l c && exR pm s l w
+  | .setSpace r c, l => exR pm s l r && exR pm s l c
+  | .setPen r c, l => exR pm s l r && exR pm s l c
   | _, _ => true
 
 /-- continue a check with the result of a computation (nothing to check after a panic) -/
@@ -86,6 +90,7 @@ def rangeS (pm : List Param) : Stmt → Frame → Bool
   | .cont, _ => true
   | .call _ none, _ => true
   | .unknown _, _ => true
+  | .prim _, _ => true
   | st, s => rangeG pm s st []
 
 def rangeBody (b : Body) (pm : List Param) (args : List Int) (e : Emu) : Bool :=
